@@ -33,7 +33,24 @@ RULE = (
     "2**53+1, 2**53+3, 2**60} with the element count below 2**63, subscripts at 0, n-1, n/2, n/3, 2**53+1, 2**31 - "
     "permute / reshape (all modes regrouped from the same atoms, or a subset of modes) / squeeze judged by exact "
     "Python-integer index arithmetic; cell many-nonzeros/sptensor: 10001 .. 50000 stored entries in unsorted order "
-    "against NumPy on the expanded array."
+    "against NumPy on the expanded array.  "
+    "Round 4: (presentation of valid requests) cells presentations/{tensor,sptensor,factored}: one operand, one request, "
+    "and every spelling of the mode order / target shape / old_modes the API accepts - list, tuple, ndarray of int64 / "
+    "int32 / int16 / int8 / uint8 / uint16 / uint64, lists and tuples of NumPy integer scalars, row and column matrix, "
+    "read-only array, strided view, and for a single entry a Python int, NumPy integer scalars and a 0-d array; "
+    "old_modes omitted / None / by keyword / all modes in order - each judged against NumPy on the denoted array (hence "
+    "against each other), with the same value dtype for every spelling, the argument and the operand left alone (dtype "
+    "included).  Operands are held as ordinary callers hold them: values in float32 / int32 / uint8 / int64 (exact index "
+    "maps: values must come back bit for bit), subscripts in int32 / int16 / int8 / uint8 / uint16 / uint64 (one mode of "
+    "length 100 .. 257 in a quarter of the cases so that arithmetic in a narrow dtype would wrap), read-only buffers "
+    "handed over with copy=False, strided and F-ordered views, C-ordered arrays, shapes given as list / ndarray / NumPy "
+    "integers, factor matrices read-only / strided / C-ordered / in a tuple, sparse Tucker cores with narrow subscripts.  "
+    "(state after a rejected request) cell rejected/history: histories of 2..5 steps on one receiver mixing valid permute / "
+    "reshape / reshape-subset / squeeze steps with rejected ones (order too short / long / with a repeated, missing or "
+    "negative mode / a matrix; shape with another element count, a dropped or extra mode, two negated entries, a float or "
+    "zero entry; old_modes out of range / repeated / negative / a matrix); after each rejection the receiver is bit for "
+    "bit what it was (shape, arrays, dtypes), well-formed, denotes the same array, and the next valid step is judged "
+    "against the model as if the rejected step had not happened."
 )
 ASSUMPTIONS = [
     "oracle: numpy transpose/reshape/squeeze applied to the array reconstructed from the public attributes",
@@ -51,6 +68,16 @@ ASSUMPTIONS = [
     "operand (identity orders, unchanged shapes and tensors without singleton modes included)",
     "huge modes: element counts of 2**63 and more are rejected by sptensor.reshape ('Reshape must maintain tensor "
     "size': the count comparison overflows) and are not generated",
+    "round 4: result dtypes are not prescribed, only that every spelling of the same request returns the same value "
+    "dtype; float32 data is judged exactly (no arithmetic is involved) - only for the dense and sparse holders",
+    "round 4: old_modes is also passed as list / tuple (parse_one_d is applied to it; the annotation says ndarray or int)",
+    "round 4: when the constructor does not accept or does not preserve a presentation of the operand, the plainly "
+    "constructed operand is used (label operand:fallback-plain; constructors belong to other properties)",
+    "round 4: a mode order / old_modes / target shape is 'rejected' when any exception is raised; tensor.permute of a "
+    "1-way tensor lets the order [1] through (a 1-based leftover, returns a copy) - not generated; a negative old_modes "
+    "entry may be rejected or honoured the way Python counts from the end",
+    "class 13 (reporting options / logging level) does not apply: permute, reshape and squeeze have no reporting options "
+    "and do not log",
 ]
 
 
@@ -1010,3 +1037,773 @@ def many_nonzeros_sptensor(ctx, case):
     ctx.check(len(np.unique(np.ravel_multi_index(tuple(rs.T), expect.shape))) == nnz, "many-distinct-subscripts")
     ctx.check(np.array_equal(B, expect), "many-index-map", ref.diff_info(B, expect))
     ctx.check(np.array_equal(np.asarray(X.subs), subs) and np.array_equal(np.asarray(X.vals).reshape(-1), vals), "many-leaves-operand")
+
+
+# --------------------------------------------------------------------------
+# (round 4, class 11) how the caller presents a valid request
+# --------------------------------------------------------------------------
+# One operand, one request (a mode order / a target shape / an old_modes subset), every spelling of it the API accepts:
+# list, tuple, ndarray of int64 / int32 / int16 / int8 / uint8 / uint16 / uint64, lists and tuples of NumPy integer
+# scalars, a row or a column matrix, a read-only array, a strided view, and - for a request of length one - a bare
+# Python int, NumPy integer scalars and a 0-d array.  The operand itself is presented the way ordinary callers hold
+# data: float32 / int32 / uint8 / int64 values (permute, reshape and squeeze move entries and change no value, so the
+# values must come back bit for bit whatever the dtype), subscripts in int32 / uint8 / uint16 / uint64 / int8, arrays
+# that are read-only (handed over with copy=False) or non-contiguous strided views, shapes given as list / ndarray /
+# NumPy integers.  Every presentation must give the reference answer (NumPy on the denoted array), hence the same
+# answer as every other presentation, in the same value dtype, and must leave the operand and the argument alone.
+
+_IDT = dict(int64=np.int64, int32=np.int32, int16=np.int16, int8=np.int8, uint8=np.uint8, uint16=np.uint16,
+            uint64=np.uint64)
+
+
+def _fits(v, dt):
+    info = np.iinfo(_IDT[dt])
+    return all(info.min <= int(x) <= info.max for x in v)
+
+
+def _strided(a):
+    """a non-contiguous view with the same content as the 1-D array a"""
+    big = np.full(2 * a.size + 1, 99, dtype=a.dtype)
+    big[1::2] = a
+    return big[1::2]
+
+
+def int_forms(v):
+    """[(name, factory)]: every presentation of the integer sequence v; the factory builds a fresh argument"""
+    v = [int(x) for x in v]
+    out = [("list", lambda: list(v)), ("tuple", lambda: tuple(v))]
+    for dt in _IDT:
+        if _fits(v, dt):
+            out.append(("array-" + dt, lambda dt=dt: np.array(v, dtype=_IDT[dt])))
+    for dt in ("int64", "int32", "uint8", "uint64"):
+        if _fits(v, dt):
+            out.append(("list-of-np." + dt, lambda dt=dt: [_IDT[dt](x) for x in v]))
+            out.append(("tuple-of-np." + dt, lambda dt=dt: tuple(_IDT[dt](x) for x in v)))
+    out.append(("row-matrix", lambda: np.array([v], dtype=np.int64).reshape(1, len(v))))
+    out.append(("column-matrix", lambda: np.array(v, dtype=np.int64).reshape(len(v), 1)))
+
+    def ro():
+        a = np.array(v, dtype=np.int64)
+        a.setflags(write=False)
+        return a
+
+    out.append(("array-readonly", ro))
+    out.append(("array-strided", lambda: _strided(np.array(v, dtype=np.int64))))
+    out.append(("array-strided-int32", lambda: _strided(np.array(v, dtype=np.int32))))
+    if len(v) == 1:
+        out.append(("python-int", lambda: int(v[0])))
+        for dt in ("int64", "int32", "uint8", "uint64"):
+            if _fits(v, dt):
+                out.append(("np." + dt + "-scalar", lambda dt=dt: _IDT[dt](v[0])))
+        out.append(("0d-array", lambda: np.array(v[0], dtype=np.int64)))
+    return out
+
+
+def _arg_intact(arg, v):
+    """the caller's argument still holds v (pyttb must not write into what it was given)"""
+    try:
+        return [int(x) for x in np.asarray(arg).reshape(-1)] == [int(x) for x in v]
+    except Exception:  # noqa: BLE001
+        return False
+
+
+VDT = dict(float64=np.float64, float32=np.float32, int64=np.int64, int32=np.int32, uint8=np.uint8)
+
+
+def _values_as(data, vdt):
+    """the generated values as they are once held in dtype vdt (uint8: magnitudes)"""
+    a = np.array(data, dtype=float)
+    if vdt == "uint8":
+        a = np.abs(a)
+    return a.astype(VDT[vdt])
+
+
+@st.composite
+def _vdt(draw, vkind, ints=("int64", "int32", "uint8")):
+    if vkind == "int":
+        return draw(st.sampled_from(["float64", "float32"] + list(ints)))
+    return draw(st.sampled_from(["float64", "float32", "float32"]))
+
+
+DENSE_MEM = ["plain", "readonly-nocopy", "readonly", "strided", "strided-nocopy", "C-ordered", "flat+shape"]
+
+
+def _present_dense(ctx, A, mem, shform):
+    """dense tensor denoting A, built from the presentation `mem` of the caller's array"""
+    sh = tuple(A.shape)
+    if mem == "readonly-nocopy":
+        a = np.asfortranarray(A.copy())
+        a.setflags(write=False)
+        return ttb.tensor(a, copy=False)
+    if mem == "readonly":
+        a = A.copy()
+        a.setflags(write=False)
+        return ttb.tensor(a)
+    if mem in ("strided", "strided-nocopy"):
+        big = np.full(tuple(2 * n + 1 for n in sh), 77, dtype=A.dtype, order="F" if mem == "strided-nocopy" else "C")
+        view = big[tuple(slice(1, None, 2) for _ in sh)]
+        view[...] = A
+        return ttb.tensor(view, copy=False) if mem == "strided-nocopy" else ttb.tensor(view)
+    if mem == "C-ordered":
+        return ttb.tensor(np.ascontiguousarray(A))
+    if mem == "flat+shape":
+        forms = dict(int_forms(sh))
+        return ttb.tensor(A.reshape(-1, order="F").copy(), forms.get(shform, forms["tuple"])())
+    return ttb.tensor(A.copy(order="F"), sh)
+
+
+@st.composite
+def _pres_dense(draw, tier):
+    c = draw(gen.dense_case(tier, min_order=1))
+    c["vdt"] = draw(_vdt(c["vkind"]))
+    c["mem"] = draw(st.sampled_from(DENSE_MEM))
+    c["shform"] = draw(st.sampled_from(["tuple", "list", "array-uint8", "array-int32", "tuple-of-np.int32", "array-uint64"]))
+    c["perm"] = list(draw(st.permutations(range(len(c["shape"])))))
+    c["new"] = draw(_target_shape(ref.prod(c["shape"])))
+    if draw(st.integers(0, 3)) == 0:
+        c["new"] = [ref.prod(c["shape"])]  # the 1-way target, where a bare int is accepted
+    if draw(st.integers(0, 2)) == 0 and len(c["shape"]) < 5:
+        # a singleton mode for squeeze (F-order data list unchanged)
+        c["shape"].insert(draw(st.integers(0, len(c["shape"]))), 1)
+        c["perm"] = list(draw(st.permutations(range(len(c["shape"])))))
+    return c
+
+
+def _vals_equal(got, expect):
+    got, expect = np.asarray(got), np.asarray(expect)
+    return got.shape == expect.shape and bool(np.array_equal(got.astype(np.float64), expect.astype(np.float64)))
+
+
+@cell("C07/presentations/tensor", strategy=_pres_dense, quick=200, thorough=2000)
+def presentations_tensor(ctx, case):
+    shape = case["shape"]
+    A = np.reshape(_values_as(case["data"], case["vdt"]), tuple(shape), order="F")
+    X = None
+    try:
+        X = _present_dense(ctx, A, case["mem"], case["shform"])
+    except Exception:  # noqa: BLE001  (the constructor is judged elsewhere)
+        pass
+    if not (isinstance(X, ttb.tensor) and tup(X.shape) == A.shape and _vals_equal(X.data, A)):
+        X = ttb.tensor(A.copy(order="F"), tuple(shape))
+        ctx.label("operand:fallback-plain")
+    else:
+        ctx.label("operand-mem:" + case["mem"])
+    ctx.label("operand-values:" + str(np.asarray(X.data).dtype), *gen.shape_classes(shape))
+    if not np.asarray(X.data).flags["WRITEABLE"]:
+        ctx.label("operand:read-only-buffer")
+    p, new = case["perm"], case["new"]
+    ctx.nt = _nt_perm(shape, p) or _nt_reshape(shape, new)
+    snap = _snapshot(X)
+    dt0 = np.asarray(X.data).dtype
+    reqs = [("permute", p, np.transpose(A, p), lambda a: X.permute(a)),
+            ("reshape", new, A.reshape(tuple(new), order="F"), lambda a: X.reshape(a))]
+    for op, v, expect, call in reqs:
+        first = None
+        for name, make in int_forms(v):
+            arg = make()
+            ctx.label(f"{op}:{name}")
+            with ctx.sut(f"tensor.{op}[{name}]"):
+                R = call(arg)
+            ok = isinstance(R, ttb.tensor) and tup(R.shape) == expect.shape and _vals_equal(R.data, expect)
+            ctx.check(ok, f"{op}-presentation-gives-reference-answer", f"{name}: " + (
+                ref.diff_info(ref.den(R), expect.astype(float)) if isinstance(R, ttb.tensor) else type(R).__name__))
+            ctx.check(_arg_intact(arg, v), f"{op}-leaves-argument", name)
+            if isinstance(R, ttb.tensor):
+                rdt = np.asarray(R.data).dtype
+                first = first or (name, rdt)
+                ctx.check(rdt == first[1], f"{op}-presentations-agree-on-dtype", f"{name}:{rdt} vs {first[0]}:{first[1]}")
+                ctx.check(all(type(n) is int for n in R.shape) or not all(type(n) is int for n in X.shape),
+                          f"{op}-shape-entries-plain-ints", name)
+            ctx.check(_untouched(X, snap) and np.asarray(X.data).dtype == dt0, f"{op}-leaves-operand", name)
+    # squeeze has no argument: the operand's presentation is the variable
+    with ctx.sut("tensor.squeeze"):
+        R = X.squeeze()
+    expect = np.squeeze(A)
+    if expect.ndim == 0:
+        ctx.check(isinstance(R, (int, float, np.integer, np.floating)) and float(R) == float(expect),
+                  "squeeze-presentation-gives-reference-answer", R)
+    else:
+        ctx.check(isinstance(R, ttb.tensor) and tup(R.shape) == expect.shape and _vals_equal(R.data, expect),
+                  "squeeze-presentation-gives-reference-answer")
+    ctx.check(_untouched(X, snap) and np.asarray(X.data).dtype == dt0, "squeeze-leaves-operand")
+
+
+SPARSE_MEM = ["plain", "readonly-nocopy", "readonly", "strided", "strided-nocopy", "F-ordered-subs-nocopy"]
+SUBS_DT = ["int64", "int32", "uint8", "uint16", "uint64", "int8", "int16"]
+
+
+def _present_sparse(A, subs, vals, sdt, vdt, mem, shform):
+    """sptensor denoting A from the caller's subs / vals in the given dtype, memory layout and shape spelling"""
+    forms = dict(int_forms(A.shape))
+    shp = forms.get(shform, forms["tuple"])()
+    if not subs:
+        return ttb.sptensor(shape=shp)
+    s = np.array(subs, dtype=np.int64).reshape(len(subs), A.ndim).astype(_IDT[sdt])
+    v = _values_as(vals, vdt).reshape(-1, 1)
+    kw = {}
+    if mem in ("readonly-nocopy", "readonly"):
+        s.setflags(write=False)
+        v.setflags(write=False)
+    if mem in ("strided", "strided-nocopy"):
+        bs = np.full((2 * s.shape[0] + 1, 2 * s.shape[1] + 1), 0, dtype=s.dtype)
+        bs[1::2, 1::2] = s
+        s = bs[1::2, 1::2]
+        bv = np.full((2 * v.shape[0] + 1, 2), 55, dtype=v.dtype)
+        bv[1::2, :1] = v
+        v = bv[1::2, :1]
+    if mem == "F-ordered-subs-nocopy":
+        s = np.asfortranarray(s)
+    if mem.endswith("nocopy"):
+        kw["copy"] = False
+    return ttb.sptensor(s, v, shp, **kw)
+
+
+@st.composite
+def _pres_sparse(draw, tier):
+    c = draw(gen.sparse_case(tier, min_order=1, patterns=("none", "one", "some", "some", "all", "all", "all")))
+    c["vdt"] = draw(_vdt(c["vkind"], ints=("int64", "int32")))
+    c["sdt"] = draw(st.sampled_from(SUBS_DT))
+    c["mem"] = draw(st.sampled_from(SPARSE_MEM))
+    c["shform"] = draw(st.sampled_from(["tuple", "list", "array-uint8", "array-int32", "tuple-of-np.int32", "array-uint64",
+                                        "tuple-of-np.uint64"]))
+    if draw(st.integers(0, 2)) == 0 and len(c["shape"]) < 5:
+        pos = draw(st.integers(0, len(c["shape"])))
+        c["shape"].insert(pos, 1)
+        for s in c["subs"]:
+            s.insert(pos, 0)
+    n = len(c["shape"])
+    if draw(st.integers(0, 3)) == 0 and ref.prod(c["shape"]) <= 16:
+        # one long mode: subscripts near the top of what a narrow integer dtype holds (127 / 128 / 255 / 256), so that
+        # index arithmetic carried out in the caller's dtype would wrap; some entries are moved to the far end
+        m = draw(st.integers(0, n - 1))
+        L = draw(st.sampled_from([100, 127, 128, 129, 200, 255, 256, 257]))
+        for s in c["subs"]:
+            if draw(st.booleans()):
+                s[m] = L - 1 - s[m]
+        c["shape"][m] = L
+        c["long"] = L
+    c["perm"] = list(draw(st.permutations(range(n))))
+    c["new"] = draw(_target_shape(ref.prod(c["shape"])))
+    if draw(st.integers(0, 3)) == 0:
+        c["new"] = [ref.prod(c["shape"])]
+    c["old_modes"] = draw(gen.mode_subset(n, 1, n))
+    if draw(st.integers(0, 2)) == 0:
+        c["old_modes"] = [draw(st.integers(0, n - 1))]  # a single mode, where a bare int is accepted
+    c["new_sub"] = draw(_target_shape(ref.prod(c["shape"][m] for m in c["old_modes"]), max_parts=3))
+    return c
+
+
+def _float_subs_only(probs):
+    return bool(probs) and all(q.startswith("subs-dtype-float") for q in probs)
+
+
+def _sp_judge(ctx, R, expect, vdt0, clause, name, ez=False):
+    """R is a well-formed sptensor denoting expect; -> value dtype or None"""
+    if not ctx.check(isinstance(R, ttb.sptensor), clause + "-returns-sptensor", f"{name}: {type(R).__name__}"):
+        return None
+    probs = ref.sptensor_problems(R, allow_explicit_zero=ez)
+    ctx.check(not probs, clause + "-result-wellformed", f"{name}: {probs}")
+    if probs and not (_float_subs_only(probs) and bool(np.all(np.asarray(R.subs) == np.floor(np.asarray(R.subs))))):
+        return None
+    ctx.check(tup(R.shape) == expect.shape, clause + "-presentation-gives-reference-shape", f"{name}: {tup(R.shape)} vs {expect.shape}")
+    if tup(R.shape) != expect.shape:
+        return None
+    B = np.zeros(expect.shape)
+    if R.subs.size:
+        np.add.at(B, tuple(np.asarray(R.subs).astype(np.int64).T), np.asarray(R.vals).reshape(-1).astype(float))
+    ctx.check(bool(np.array_equal(B, expect)), clause + "-presentation-gives-reference-answer", f"{name}: " + ref.diff_info(B, expect))
+    return np.asarray(R.vals).dtype if R.vals.size else None
+
+
+def _sp_snapshot(X):
+    return (tup(X.shape), np.array(X.subs, copy=True), np.array(X.vals, copy=True), np.asarray(X.subs).dtype,
+            np.asarray(X.vals).dtype)
+
+
+def _sp_untouched(X, snap):
+    return (tup(X.shape) == snap[0] and np.asarray(X.subs).shape == snap[1].shape and np.array_equal(X.subs, snap[1])
+            and np.asarray(X.vals).shape == snap[2].shape and np.array_equal(X.vals, snap[2])
+            and np.asarray(X.subs).dtype == snap[3] and np.asarray(X.vals).dtype == snap[4])
+
+
+PREDICATES["subs_uint64"] = lambda case: case.get("sdt") == "uint64"
+# C07-F4: only a sparse tensor without stored entries lets a target shape with negative entries through
+PREDICATES["rejected_sparse_no_nonzeros"] = lambda case: case.get("holder") == "sptensor" and not case.get("subs")
+PREDICATES["rejected_sparse"] = lambda case: case.get("holder") == "sptensor"
+
+
+@cell("C07/presentations/sptensor", strategy=_pres_sparse, quick=150, thorough=1500)
+def presentations_sptensor(ctx, case):
+    shape = case["shape"]
+    N = len(shape)
+    vals = _values_as(case["vals"], case["vdt"]) if case["vals"] else np.zeros(0)
+    A = np.zeros(tuple(shape))
+    for s, v in zip(case["subs"], vals):
+        A[tuple(s)] = float(v)
+    X = None
+    if case.get("long"):
+        ctx.label("operand:long-mode")
+    if case["subs"] and not _fits([max(max(s) for s in case["subs"])], case["sdt"]):
+        case = dict(case, sdt="int64")  # the caller's dtype must hold every subscript
+    try:
+        X = _present_sparse(A, case["subs"], case["vals"], case["sdt"], case["vdt"], case["mem"], case["shform"])
+    except Exception:  # noqa: BLE001  (the constructor is judged elsewhere)
+        pass
+    if not (isinstance(X, ttb.sptensor) and tup(X.shape) == A.shape and not ref.sptensor_problems(X)
+            and ref.same_exact(ref.den(X), A)):
+        X = _present_sparse(A, case["subs"], case["vals"], "int64", case["vdt"], "plain", "tuple")
+        ctx.label("operand:fallback-plain")
+    else:
+        ctx.label("operand-mem:" + case["mem"], "operand-shape-as:" + case["shform"])
+    if X.subs.size:
+        ctx.label("operand-subs:" + str(np.asarray(X.subs).dtype), "operand-values:" + str(np.asarray(X.vals).dtype))
+        if not np.asarray(X.subs).flags["WRITEABLE"]:
+            ctx.label("operand:read-only-buffers")
+        if not (np.asarray(X.subs).flags["C_CONTIGUOUS"] or np.asarray(X.subs).flags["F_CONTIGUOUS"]):
+            ctx.label("operand:strided-buffers")
+    else:
+        ctx.label("operand:no-nonzeros")
+    p, new, om, new_sub = case["perm"], case["new"], case["old_modes"], case["new_sub"]
+    ctx.nt = bool(case["subs"]) and (_nt_perm(shape, p) or _nt_reshape(shape, new))
+    snap = _sp_snapshot(X)
+    first = {}
+
+    def judge(op, R, expect, name, args):
+        vdt = _sp_judge(ctx, R, expect, snap[4], op, name)
+        if vdt is not None:
+            first.setdefault(op, (name, vdt))
+            ctx.check(vdt == first[op][1], f"{op}-presentations-agree-on-dtype", f"{name}:{vdt} vs {first[op]}")
+        for arg, v in args:
+            ctx.check(_arg_intact(arg, v), f"{op}-leaves-argument", name)
+        ctx.check(_sp_untouched(X, snap), f"{op}-leaves-operand", name)
+
+    # permute
+    expect = np.transpose(A, p)
+    for name, make in int_forms(p):
+        arg = make()
+        ctx.label("permute:" + name)
+        with ctx.sut(f"sptensor.permute[{name}]"):
+            R = X.permute(arg)
+        judge("permute", R, expect, name, [(arg, p)])
+    # reshape of all modes: every spelling of the shape; old_modes omitted, None, or all modes in order
+    expect = A.reshape(tuple(new), order="F")
+    allm = int_forms(list(range(N)))
+    for i, (name, make) in enumerate(int_forms(new)):
+        arg = make()
+        ctx.label("reshape:" + name)
+        how = i % 4
+        with ctx.sut(f"sptensor.reshape[{name}]"):
+            if how == 0:
+                R = X.reshape(arg)
+            elif how == 1:
+                R = X.reshape(new_shape=arg, old_modes=None)
+            else:
+                oname, omake = allm[(i // 4) % len(allm)]
+                oarg = omake()
+                name = name + "/all-modes-" + oname
+                R = X.reshape(arg, oarg) if how == 2 else X.reshape(old_modes=oarg, new_shape=arg)
+        judge("reshape", R, expect, name, [(arg, new)])
+    # reshape of a subset of modes: spellings of the shape paired with spellings of old_modes
+    keep = [m for m in range(N) if m not in om]
+    At = np.transpose(A, keep + list(om))
+    expect = At.reshape(tuple([shape[m] for m in keep] + list(new_sub)), order="F")
+    sf, of = int_forms(new_sub), int_forms(om)
+    pairs = [(i % len(sf), i % len(of)) for i in range(max(len(sf), len(of)))]
+    pairs += [(i % len(sf), (i + 5) % len(of)) for i in range(0, max(len(sf), len(of)), 3)]
+    for i, j in pairs:
+        (sname, smake), (oname, omake) = sf[i], of[j]
+        sarg, oarg = smake(), omake()
+        ctx.label("old_modes:" + oname)
+        name = sname + "/" + oname
+        with ctx.sut(f"sptensor.reshape-subset[{oname}]"):
+            R = X.reshape(sarg, oarg)
+        judge("reshape-subset", R, expect, name, [(sarg, new_sub), (oarg, om)])
+    # squeeze
+    with ctx.sut("sptensor.squeeze"):
+        R = X.squeeze()
+    expect = np.squeeze(A)
+    if expect.ndim == 0:
+        ctx.check(isinstance(R, (int, float, np.integer, np.floating)) and float(R) == float(expect),
+                  "squeeze-presentation-gives-reference-answer", R)
+    else:
+        judge("squeeze", R, expect, "-", [])
+
+
+FACTOR_MEM = ["plain", "readonly-nocopy", "strided", "C-ordered-nocopy", "tuple-of-factors"]
+
+
+def _present_factors(fm, mem):
+    """(factor list as the caller holds it, constructor keywords)"""
+    out = []
+    for f in fm:
+        if mem == "readonly-nocopy":
+            g = np.asfortranarray(f.copy())
+            g.setflags(write=False)
+        elif mem == "strided":
+            big = np.full((2 * f.shape[0] + 1, 2 * f.shape[1] + 1), 7.0)
+            big[1::2, 1::2] = f
+            g = big[1::2, 1::2]
+        elif mem == "C-ordered-nocopy":
+            g = np.ascontiguousarray(f.copy())
+        else:
+            g = f.copy()
+        out.append(g)
+    return (tuple(out) if mem == "tuple-of-factors" else out), (dict(copy=False) if mem.endswith("nocopy") else {})
+
+
+@st.composite
+def _pres_kt(draw, tier):
+    holder = draw(st.sampled_from(["ktensor", "ttensor"]))
+    c = draw(gen.ktensor_case(tier, min_order=1)) if holder == "ktensor" else draw(gen.ttensor_case(tier, min_order=1))
+    c["holder"] = holder
+    c["perm"] = list(draw(st.permutations(range(len(c["shape"])))))
+    c["mem"] = draw(st.sampled_from(FACTOR_MEM))
+    c["core_sdt"] = draw(st.sampled_from(["int64", "int32", "uint8", "uint16"]))
+    return c
+
+
+@cell("C07/presentations/factored", strategy=_pres_kt, quick=150, thorough=1500)
+def presentations_factored(ctx, case):
+    """Kruskal / Tucker holders: every spelling of the mode order moves the very same factor matrices (bit for bit)"""
+    p, shape = case["perm"], case["shape"]
+    kt = case["holder"] == "ktensor"
+    X = None
+    try:
+        if kt:
+            fm = [np.array(f, dtype=float).reshape(n, case["rank"]) for f, n in zip(case["factors"], shape)]
+            fl, kw = _present_factors(fm, case["mem"])
+            X = ttb.ktensor(fl, np.array(case["weights"], dtype=float), **kw)
+        else:
+            fm = [np.array(f, dtype=float).reshape(s, c) for f, s, c in zip(case["factors"], shape, case["cshape"])]
+            fl, kw = _present_factors(fm, case["mem"])
+            core = gen.arr_F(case["cshape"], case["core"])
+            if case.get("sparse_core"):
+                ents = [(list(s), float(core[s])) for s in ref.all_subs_F(core.shape) if core[s] != 0]
+                cs = np.array([e[0] for e in ents], dtype=np.int64).reshape(len(ents), core.ndim).astype(_IDT[case["core_sdt"]])
+                C = ttb.sptensor(cs, np.array([e[1] for e in ents]).reshape(-1, 1), tuple(core.shape)) if ents else ttb.sptensor(
+                    shape=tuple(core.shape))
+                ctx.label("core-subs:" + case["core_sdt"])
+            else:
+                C = ttb.tensor(core.copy(order="F"), tuple(case["cshape"]))
+            X = ttb.ttensor(C, list(fl), **kw)
+        ok = all(np.array_equal(a, b) for a, b in zip(X.factor_matrices, fm))
+    except Exception:  # noqa: BLE001  (constructors are judged elsewhere)
+        ok = False
+    if not ok:
+        X = gen.build_ktensor(case) if kt else build_tt(ctx, dict(case, core_prov="ctor"))
+        ctx.label("operand:fallback-plain")
+    else:
+        ctx.label("operand-mem:" + case["mem"])
+    ctx.label(case["holder"], *gen.shape_classes(shape))
+    ctx.nt = _nt_perm(shape, p) or (not kt and _nt_perm(case["cshape"], p))
+    f0 = [np.array(f, copy=True) for f in X.factor_matrices]
+    w0 = np.array(X.weights, copy=True) if kt else None
+    c0 = None if kt else np.array(ref.den(X.core), copy=True)
+    A = ref.den(X)
+    cls = ttb.ktensor if kt else ttb.ttensor
+    for name, make in int_forms(p):
+        arg = make()
+        ctx.label("permute:" + name)
+        with ctx.sut(f"{case['holder']}.permute[{name}]"):
+            R = X.permute(arg)
+        if not ctx.check(isinstance(R, cls) and len(R.factor_matrices) == len(p), "permute-returns-same-class", name):
+            continue
+        ok = all(np.asarray(R.factor_matrices[i]).shape == f0[p[i]].shape and np.array_equal(R.factor_matrices[i], f0[p[i]])
+                 for i in range(len(p)))
+        if kt:
+            ok = ok and np.array_equal(R.weights, w0)
+        else:
+            ok = ok and ref.same_exact(ref.den(R.core), np.transpose(c0, p))
+        ctx.check(ok and tup(R.shape) == tuple(shape[i] for i in p), "permute-presentation-gives-reference-answer", name)
+        ctx.check(_arg_intact(arg, p), "permute-leaves-argument", name)
+        same = all(np.array_equal(a, b) for a, b in zip(X.factor_matrices, f0)) and (
+            np.array_equal(X.weights, w0) if kt else ref.same_exact(ref.den(X.core), c0))
+        ctx.check(same and tup(X.shape) == tuple(shape), "permute-leaves-operand", name)
+
+
+# --------------------------------------------------------------------------
+# (round 4, class 12) the state of the receiver after a rejected request
+# --------------------------------------------------------------------------
+# Histories on one receiver: rejected requests (a mode order that is too short / too long / repeats a mode / names a
+# mode that does not exist / is negative / is a matrix; a target shape with another element count - one entry changed,
+# a mode dropped, doubled, two entries negated so that the product is still right, a float entry, a zero entry; for
+# sparse tensors an old_modes subset whose sizes do not multiply to the target or that names a mode that does not
+# exist) interleaved with valid permute / reshape / squeeze steps.  After every rejected request the receiver must be
+# bit for bit what it was (shape, data / subs / vals / weights / factors, dtypes) and the following valid step is
+# judged against the model as if the rejected step had not happened; the valid step's result becomes the receiver.
+
+
+def _bad_order(draw, N, holder):
+    kind = draw(st.sampled_from(["short", "long", "dup", "oob", "neg", "matrix"]))
+    if kind == "dup" and N < 2:
+        kind = "long"
+    p = list(draw(st.permutations(range(N))))
+    if kind == "short":
+        v = list(draw(st.permutations(range(N - 1))))
+    elif kind == "long":
+        v = list(draw(st.permutations(range(N + 1))))
+    elif kind == "dup":
+        i, j = draw(st.permutations(range(N)))[:2]
+        p[i] = p[j]
+        v = p
+    elif kind == "oob":
+        # (tensor.permute of a 1-way tensor lets the order [1] through - a 1-based leftover; N + 1 is used there)
+        p[draw(st.integers(0, N - 1))] = N + (1 if N == 1 else draw(st.integers(0, 1)))
+        v = p
+    elif kind == "neg":
+        i = draw(st.integers(0, N - 1))
+        p[i] = p[i] - N  # the same mode counted from the end: a valid axis for numpy, not a valid mode order
+        v = p
+    else:
+        v = [p, p]
+    return dict(op="permute", bad=kind, arg=v, form=draw(st.sampled_from(["list", "array", "array-int32"])))
+
+
+def _bad_shape(draw, sel_shape):
+    n = ref.prod(sel_shape)
+    new = draw(_target_shape(n)) if n >= 1 else [0]
+    kind = draw(st.sampled_from(["count+1", "double", "drop-mode", "neg-pair", "float-entry", "zero-entry", "extra-mode"]))
+    i = draw(st.integers(0, len(new) - 1))
+    if kind == "drop-mode" and not any(s > 1 for s in new):
+        kind = "double"
+    if kind == "neg-pair" and len(new) < 2:
+        new = new + [1]
+    if kind == "count+1":
+        new[i] += 1
+    elif kind == "double":
+        new[i] *= 2
+    elif kind == "drop-mode":
+        new.pop(draw(st.sampled_from([k for k, s in enumerate(new) if s > 1])))
+        new = new or [1]
+    elif kind == "neg-pair":
+        a, b = draw(st.permutations(range(len(new))))[:2]
+        new[a], new[b] = -new[a], -new[b]
+    elif kind == "float-entry":
+        new[i] = float(new[i]) + draw(st.sampled_from([0.0, 0.5]))
+    elif kind == "zero-entry":
+        new[i] = 0
+    else:
+        new.insert(i, draw(st.integers(2, 3)))
+    return kind, new
+
+
+@st.composite
+def _rejected_case(draw, tier):
+    holder = draw(st.sampled_from(["tensor", "tensor", "sptensor", "sptensor", "ktensor", "ttensor"]))
+    if holder == "tensor":
+        c = draw(gen.dense_case(tier, min_order=1, min_size=1))
+        c["vdt"] = draw(_vdt(c["vkind"]))
+    elif holder == "sptensor":
+        c = draw(gen.sparse_case(tier, min_order=1, patterns=("none", "one", "some", "some", "all", "all")))
+        c["vdt"] = draw(_vdt(c["vkind"], ints=("int64", "int32")))
+        c["sdt"] = draw(st.sampled_from(["int64", "int64", "int32", "uint8"]))
+    elif holder == "ktensor":
+        c = draw(gen.ktensor_case(tier, min_order=1))
+    else:
+        c = draw(gen.ttensor_case(tier, min_order=1))
+    c["holder"] = holder
+    shape = list(c["shape"])
+    steps = []
+    nrej = 0
+    for k in range(draw(st.integers(2, 5))):
+        N = len(shape)
+        rejected = draw(st.booleans()) or (k == 1 and nrej == 0)
+        ops = ["permute"] if holder in ("ktensor", "ttensor") else ["permute", "reshape", "reshape"] + (
+            ["reshape-subset", "reshape-subset"] if holder == "sptensor" else []) + ([] if rejected else ["squeeze"])
+        op = draw(st.sampled_from(ops))
+        if rejected:
+            nrej += 1
+            if op == "permute":
+                st_ = _bad_order(draw, N, holder)
+            elif op == "reshape":
+                kind, new = _bad_shape(draw, shape)
+                st_ = dict(op="reshape", bad=kind, arg=new, form=draw(st.sampled_from(["tuple", "list", "array"])))
+            else:
+                om = draw(gen.mode_subset(N, 1, N))
+                kind = draw(st.sampled_from(["shape", "shape", "oob-mode", "matrix-modes", "dup-modes", "neg-mode"]))
+                big = [m for m in range(N) if shape[m] >= 2]
+                if kind in ("dup-modes", "neg-mode") and not big:
+                    kind = "oob-mode"
+                if kind == "matrix-modes" and len(om) < 2:
+                    kind = "oob-mode"  # (a 2 x 1 matrix squeezes to a vector)
+                if kind == "dup-modes":
+                    # a non-singleton mode named twice, the target sized for the repeated list: every size test passes
+                    m = draw(st.sampled_from(big))
+                    om = [m, m]
+                    new = draw(_target_shape(shape[m] ** 2, max_parts=3))
+                elif kind == "neg-mode":
+                    # a non-singleton mode counted from the end
+                    m = draw(st.sampled_from(big))
+                    om = [m - N]
+                    new = draw(_target_shape(shape[m], max_parts=3))
+                elif kind == "shape":
+                    kind, new = _bad_shape(draw, [shape[m] for m in om])
+                    if kind in ("neg-pair",) and ref.prod(shape[m] for m in om) == 0:
+                        kind, new = "count+1", [1, 2]
+                else:
+                    new = draw(_target_shape(ref.prod(shape[m] for m in om), max_parts=3))
+                    if kind == "oob-mode":
+                        om[draw(st.integers(0, len(om) - 1))] = N + draw(st.integers(0, 1))
+                    else:
+                        om = [om, om]
+                st_ = dict(op="reshape-subset", bad=kind, arg=new, old_modes=om, form=draw(st.sampled_from(["tuple", "list", "array"])))
+            st_["rejected"] = True
+            steps.append(st_)
+            continue
+        if op == "permute":
+            p = list(draw(st.permutations(range(N))))
+            steps.append(dict(op=op, arg=p))
+            shape = [shape[i] for i in p]
+        elif op == "reshape":
+            new = draw(_target_shape(ref.prod(shape)))
+            steps.append(dict(op=op, arg=new))
+            shape = list(new)
+        elif op == "reshape-subset":
+            om = draw(gen.mode_subset(N, 1, N))
+            new = draw(_target_shape(ref.prod(shape[m] for m in om), max_parts=3))
+            steps.append(dict(op=op, arg=new, old_modes=om))
+            shape = [shape[m] for m in range(N) if m not in om] + list(new)
+        else:
+            steps.append(dict(op="squeeze"))
+            if all(s == 1 for s in shape):
+                break  # a scalar comes back: the history ends
+            shape = [s for s in shape if s != 1]
+        if len(shape) > 6:
+            break
+    c["steps"] = steps
+    return c
+
+
+def _spell(v, form):
+    if form == "array":
+        return np.array(v)
+    if form == "array-int32":
+        return np.array(v, dtype=np.int32)
+    if form == "tuple":
+        return tuple(v)
+    return list(v)
+
+
+def _state(X):
+    """everything that parameterises X, copied: (kind, shape, [(array copy, dtype)])"""
+    if isinstance(X, ttb.tensor):
+        arrs = [X.data]
+    elif isinstance(X, ttb.sptensor):
+        arrs = [X.subs, X.vals]
+    elif isinstance(X, ttb.ktensor):
+        arrs = [X.weights] + list(X.factor_matrices)
+    else:
+        arrs = list(_state(X.core)[2]) + list(X.factor_matrices)
+        return (type(X).__name__, tup(X.shape) + tup(X.core.shape), [(np.array(a, copy=True), np.asarray(a).dtype) for a, _ in arrs[:len(arrs) - len(X.factor_matrices)]]
+                + [(np.array(a, copy=True), np.asarray(a).dtype) for a in X.factor_matrices])
+    return (type(X).__name__, tup(X.shape), [(np.array(a, copy=True), np.asarray(a).dtype) for a in arrs])
+
+
+def _same_state(X, st0):
+    try:
+        now = _state(X)
+    except Exception:  # noqa: BLE001
+        return False
+    return now[0] == st0[0] and now[1] == st0[1] and len(now[2]) == len(st0[2]) and all(
+        a.shape == b.shape and da == db and np.array_equal(a, b) for (a, da), (b, db) in zip(now[2], st0[2]))
+
+
+@cell("C07/rejected/history", strategy=_rejected_case, quick=400, thorough=4000)
+def rejected_history(ctx, case):
+    holder = case["holder"]
+    if holder == "tensor":
+        A = np.reshape(_values_as(case["data"], case["vdt"]), tuple(case["shape"]), order="F")
+        X = ttb.tensor(A.copy(order="F"), tuple(case["shape"]))
+        A = A.astype(float)
+    elif holder == "sptensor":
+        vals = _values_as(case["vals"], case["vdt"]) if case["vals"] else np.zeros(0)
+        A = np.zeros(tuple(case["shape"]))
+        for s, v in zip(case["subs"], vals):
+            A[tuple(s)] = float(v)
+        X = _present_sparse(A, case["subs"], case["vals"], case["sdt"], case["vdt"], "plain", "tuple")
+    elif holder == "ktensor":
+        X = gen.build_ktensor(case)
+        A = ref.den(X)
+    else:
+        X = build_tt(ctx, dict(case, core_prov="ctor"))
+        A = ref.den(X)
+    exact = holder in ("tensor", "sptensor")
+    absA = None if exact else (ref.abs_kruskal(X.weights, X.factor_matrices) if holder == "ktensor" else ref.den_tucker(
+        np.abs(ref.den(X.core)), [np.abs(f) for f in X.factor_matrices]))
+    nterms = 1 if exact else (case["rank"] if holder == "ktensor" else ref.prod(case["cshape"]))
+    ctx.label(holder)
+    ctx.nt = any(s.get("rejected") for s in case["steps"]) and any(not s.get("rejected") for s in case["steps"])
+    after_rejected = False
+    for k, step in enumerate(case["steps"]):
+        op = step["op"]
+        if step.get("rejected"):
+            what = f"{op}:{step['bad']}"
+            ctx.label("rejected-" + what)
+            st0 = _state(X)
+            arg = _spell(step["arg"], step["form"])
+            arg_repr = repr(arg)
+            if op == "reshape-subset" and step["bad"] == "neg-mode":
+                # either rejected, or honoured the way Python counts from the end - never a tensor of another size
+                om = np.array(step["old_modes"])
+                try:
+                    R = X.reshape(arg, om)
+                except Exception:  # noqa: BLE001
+                    R = None
+                if R is not None:
+                    m = step["old_modes"][0] + A.ndim
+                    keep = [i for i in range(A.ndim) if i != m]
+                    e = np.transpose(A, keep + [m]).reshape(tuple([A.shape[i] for i in keep] + list(step["arg"])), order="F")
+                    ctx.check(isinstance(R, ttb.sptensor) and tup(R.shape) == e.shape and not ref.sptensor_problems(R)
+                              and ref.same_exact(ref.den(R), e), "negative-old_modes-neither-rejected-nor-honoured",
+                              f"shape {tup(getattr(R, 'shape', ()))} from {A.shape}")
+            elif op == "reshape-subset":
+                om = np.array(step["old_modes"])
+                ctx.raises(f"{holder}.{what}", lambda: X.reshape(arg, om))
+            elif op == "reshape":
+                ctx.raises(f"{holder}.{what}", lambda: X.reshape(arg))
+            else:
+                ctx.raises(f"{holder}.{what}", lambda: X.permute(arg))
+            ctx.check(_same_state(X, st0), "receiver-unchanged-after-rejected-request", what)
+            ctx.check(repr(arg) == arg_repr, "argument-unchanged-after-rejected-request", what)
+            if isinstance(X, ttb.sptensor):
+                probs = ref.sptensor_problems(X)
+                ctx.check(not probs, "receiver-wellformed-after-rejected-request", f"{what}: {probs}")
+            ok = tup(X.shape) == A.shape and (ref.same_exact(ref.den(X), A) if exact else ref.same_bound(ref.den(X), A, absA, nterms))
+            ctx.require(ok, "receiver-denotes-the-same-array-after-rejected-request", what)
+            after_rejected = True
+            continue
+        ctx.label(("valid-after-rejected-" if after_rejected else "valid-") + op)
+        st0 = _state(X)
+        with ctx.sut(f"{holder}.{op}"):
+            if op == "permute":
+                R = X.permute(np.array(step["arg"]))
+            elif op == "reshape":
+                R = X.reshape(tuple(step["arg"]))
+            elif op == "reshape-subset":
+                R = X.reshape(tuple(step["arg"]), np.array(step["old_modes"]))
+            else:
+                R = X.squeeze()
+        if op == "permute":
+            expect = np.transpose(A, step["arg"])
+            absA = None if exact else np.transpose(absA, step["arg"])
+        elif op == "reshape":
+            expect = A.reshape(tuple(step["arg"]), order="F")
+        elif op == "reshape-subset":
+            om = step["old_modes"]
+            keep = [m for m in range(A.ndim) if m not in om]
+            expect = np.transpose(A, keep + om).reshape(tuple([A.shape[m] for m in keep] + list(step["arg"])), order="F")
+        else:
+            expect = np.squeeze(A)
+        ctx.check(_same_state(X, st0), "valid-step-leaves-receiver", op)
+        if expect.ndim == 0 and op == "squeeze":
+            ctx.check(isinstance(R, (int, float, np.integer, np.floating)) and float(R) == float(expect), "history-step-value", op)
+            return
+        ctx.require(type(R) is type(X), "history-step-returns-same-class", f"{op}: {type(R).__name__}")
+        if isinstance(R, ttb.sptensor):
+            probs = ref.sptensor_problems(R)
+            ctx.require(not probs, "history-step-result-wellformed", f"{op}: {probs}")
+        ctx.require(tup(R.shape) == expect.shape, "history-step-shape", f"step {k} {op}: {tup(R.shape)} vs {expect.shape}")
+        got = ref.den(R)
+        ctx.require(ref.same_exact(got, expect) if exact else ref.same_bound(got, expect, absA, nterms), "history-step-index-map",
+                    f"step {k} {op}: " + ref.diff_info(got, expect))
+        X, A = R, expect
